@@ -6,6 +6,15 @@
 // durably blocked, so the interleaving of Connection()/done() calls, dial
 // results, context cancellations and the two schedule points
 // conn.dial.result / conn.wait is part of the data.
+//
+// Parts: random (stepwise, exact generation model, run.go), wide (the same
+// engine at sizes beyond 32/64/128 addresses, pending dials, blocked requesters,
+// storm_test.go), storm (free-running requesters in virtual time inside one
+// bubble: hundreds of requesters and addresses, slow dials, cancellation at
+// every phase, concurrent calls of one done func; schedule-independent oracles,
+// storm.go), convoy (real scheduler: calls piled up in front of the Manager's
+// lock, among them several concurrent calls of the same done func, convoy.go)
+// and stress (real scheduler, acquire/hold/release churn, stress_test.go).
 package connprop
 
 import (
